@@ -75,3 +75,18 @@ pub fn lines(col: &mut Collector, rng: &mut Rng, coords: &[(u8, u32, u32)], thor
 	let bad = vec![indep::Entry { id: 9, off: 0, len: 5, run: 2 }, indep::Entry { id: 3, off: 5, len: 5, run: 1 }];
 	col.out.line(&format!("pmdir.find {} 4 => {}", fmt_entries(&bad), outcome(guarded(|| Ok(to_v3(&bad).find_tile(4))), |o| o.map_or("none".into(), |e| fmt_entry(&e)))));
 }
+
+/// C19: directory parser and search on mutated, hand-made and unsorted directories
+pub fn malformed_lines(col: &mut Collector, rng: &mut Rng, n: usize) {
+	for i in 0..n {
+		let k = rng.below(7) as usize; let es = gen_dir(rng, k, i % 2 == 0);
+		let mut b = indep::enc_dir(&es, rng);
+		for _ in 0..rng.range(1, 3) { if b.is_empty() { break; } let k = rng.below(b.len() as u64) as usize; match rng.below(5) { 0 => b[k] ^= 1 << rng.below(8), 1 => b.truncate(k), 2 => b[k] = 0xff, 3 => b.insert(k, 0x80 | rng.next() as u8), _ => b[k] = 0 } }
+		let r = guarded(|| EntriesV3::from_blob(&Blob::from(b.clone())));
+		col.out.line(&format!("pmdir.de {} => {}", if b.is_empty() { "-".into() } else { hex(&b) }, outcome(r, |v| { let s = v.iter().map(fmt_entry).collect::<Vec<_>>().join(";"); format!("ok {}", if s.is_empty() { "-".into() } else { s }) })));
+		// an arbitrary (unsorted, overlapping) directory
+		let mut es2 = es.clone(); if es2.len() >= 2 { let (a, b) = (rng.below(es2.len() as u64) as usize, rng.below(es2.len() as u64) as usize); es2.swap(a, b); }
+		for e in es2.iter_mut() { if rng.chance(1, 4) { e.id = rng.below(40); } }
+		for t in [0u64, 3, 7, 20, 39, u64::MAX] { find_line(col, &es2, t); }
+	}
+}
